@@ -5,6 +5,7 @@ From Coq Require Import List ZArith Bool.
 From Celer Require Import C17.Gather C17.GatherProofs C17.GatherWitness.
 From Celer Require Import C17.Loop C17.LoopProofs C17.LoopProofs2 C17.LoopWitness.
 From Celer Require Import C17.Multi C17.MultiProofs C17.MultiWitness C17.FloatWitness.
+From Celer Require Import C17.Copy C17.CopyProofs.
 Import ListNotations.
 Local Open Scope Z_scope.
 
@@ -384,3 +385,31 @@ Theorem C17_detector_steps_are_delivered : forall (F : Type) (is_zero : F -> boo
   = map snd (delivered p (collector_step is_zero p pres posts rows)).
 Proof. exact detector_steps_are_delivered. Qed.
 Print Assumptions C17_detector_steps_are_delivered.
+
+(** ** DetectorSteps with a REUSED output object (HitProcessor usage) *)
+
+(** copy_steps as a function of (previous content of the output, state): the
+    result depends on the state only — for EVERY previous content, also when no
+    slot has a valid detector now. *)
+Theorem C17_detector_steps_overwrites : forall (F : Type) (fzero : F)
+    (prev : det_output F) (p : params) (rows : list (row F)),
+  copy_steps_into fzero prev p rows = copy_steps p rows.
+Proof. exact detector_steps_overwrites. Qed.
+Print Assumptions C17_detector_steps_overwrites.
+
+(** hence a callback doing [copy_steps(&steps_, state); if (steps_) score(steps_)]
+    scores exactly the rows with a valid detector, each once, nothing when there is none. *)
+Theorem C17_scored_hits_exact : forall (F : Type) (fzero : F)
+    (prev : det_output F) (p : params) (rows : list (row F)),
+  scored_hits (copy_steps_into fzero prev p rows)
+  = map (fun r => (r_det r, r_track r)) (filter (@det_valid F) rows).
+Proof. exact scored_hits_exact. Qed.
+Print Assumptions C17_scored_hits_exact.
+
+(** the variant that returns early when no slot has a detector does not have this property *)
+Theorem C17_copy_steps_early_return_refuted :
+  exists (prev : det_output Z) (p : params) (rows : list (row Z)),
+    copy_steps_into_early 0 prev p rows <> copy_steps p rows /\
+    scored_hits (copy_steps_into_early 0 prev p rows) <> [] /\ filter (@det_valid Z) rows = [].
+Proof. exact copy_steps_early_return_refuted. Qed.
+Print Assumptions C17_copy_steps_early_return_refuted.
